@@ -1145,6 +1145,33 @@ def rule_c07(ctx, prog, rule="R19"):
         detail = "order 0 ⇒ one(), order 1 ⇒ zero() as constants (every success path under order = 0 / 1)" if ok else \
             "with order = 0 / 1 the routine can return %s" % {k: [fmt(x)[:40] if not isinstance(x, tuple) or (x and isinstance(x[0], str)) else [fmt(y)[:30] for y in x] for x in v] for k, v in got.items()}
         ctx.ob("R13", "%s/order-0-1-constant" % name, ok, root.where(), detail, what="order 0/1 not the exact constants")
+        if name == "central_moments":
+            # … and the constant arms are taken for orders 0 and 1 *only*: with order = 2, 3, 4 no success path may hand back a bare
+            # literal shorter than order + 1 entries (it has to go through the general pipeline that appends the higher moments)
+            short = []
+            for k_ in (2, 3, 4):
+                leaf_k = lambda e, k_=k_: k_ if (isinstance(e, tuple) and e[:2] == ("param", 2)) else None
+                for d, path in success_paths_under(tb, leaf_k):
+                    if d is None:
+                        continue
+                    e = ds(tb.def_expr(0, d))
+                    if not (isinstance(e, tuple) and e[0] == "agg" and e[2] == "Ok"):
+                        continue
+                    # (a path through the head of the appending loop counts: how often it iterates is the range obligation's business)
+                    grows = any(tb.term(b2)["k"] == "call" and callee_name(tb.term(b2)) in ("push", "extend", "collect", "extend_from_slice", "resize", "next")
+                                for b2 in path)
+                    lit = None
+                    for b2 in reversed(path):
+                        lv = vec_literal_values(tb, b2)
+                        if lv is not None:
+                            lit = lv
+                            break
+                    if not grows and lit is not None and len(lit) < k_ + 1:
+                        short.append((k_, len(lit)))
+            ctx.ob("R13", "central_moments/constant-arms-only-for-0-1", not short, root.where(),
+                   "with order = 2, 3, 4 every success path goes through the pipeline that appends the higher moments" if not short else
+                   "with order = %d a success path returns a bare %d-entry literal: the moments above it are missing" % short[0],
+                   what="bulk moments truncated for an order ≥ 2")
     # general arm of central_moments starts the vector with [one(), zero()] too
     root = S("central_moments")
     tb = prog.tracked(root)
